@@ -22,6 +22,9 @@
 (*  Dev_InterruptedStartup    a signal during start-up ends run() with KeyboardInterrupt (or with the      *)
 (*                            RuntimeError / AttributeError of shutdown() called by the handler), nothing  *)
 (*                            is cleaned up                                                                 *)
+(*  Dev_SignalHandlerBlocks   the handler calls shutdown() in the interrupted thread: when that thread holds *)
+(*                            the lock of the start MultiEvent, the interface it waits for can never answer  *)
+(*                            - the node hangs for ever                                                      *)
 EXTENDS ServerRunObs, Json, IOUtils, TLCExt
 
 Traces == JsonDeserialize(IOEnv.TRACE_FILE)
@@ -48,6 +51,7 @@ Dev_ResponderLeak(s, e) ==
   IF e.ev = "boot" THEN {Dev([NewGen(s, e.g) EXCEPT !.oldDisc = @ \cup {s.gen}], "Dev_ResponderLeak")}
   ELSE {Dev(s, "Dev_ResponderLeak")}
 Dev_NoHook(s, e) == {Dev(NewGen(s, e.g), "Dev_NoHook")}
+Dev_SignalHandlerBlocks(s, e) == {Dev(s, "Dev_SignalHandlerBlocks")}
 Dev_InterruptedStartup(s, e) == {Dev([s EXCEPT !.run = "exc", !.aborted = TRUE], "Dev_InterruptedStartup")}
 
 (* which deviation explains a rejected event - none: the rejection stands *)
@@ -71,6 +75,8 @@ DevFor(s, e, why) ==
     [] why = "exc.run() raises" /\ e.exc \in {"KeyboardInterrupt", "RuntimeError", "AttributeError"}
               /\ (\E x \in s.reqGen : x[1] = "sig") /\ s.ph \in {"init", "boot", "ready"}
               -> Dev_InterruptedStartup(s, e)
+    [] why = "E1.a request never returns" /\ e.ev = "quiet" /\ "sig" \in s.shutOpen /\ s.ph \in {"boot", "ready"}
+         -> Dev_SignalHandlerBlocks(s, e)
     [] OTHER -> {Fail(s, why)}
 
 TStep(s, e) == UNION {IF n.rej = "" THEN {n} ELSE DevFor(s, e, n.rej) : n \in Step(s, e)}
@@ -88,7 +94,7 @@ Track == IF l > 0 THEN TLCSet(t, IF l > TLCGet(t) THEN l ELSE TLCGet(t))
 (* the deviations an accepted trace needed, as a bit mask over DevNames (a long line would be wrapped by TLC) *)
 DevNames == <<"Dev_ModulesLeftRunning", "Dev_ServesAfterStop", "Dev_StaleAnnounce", "Dev_ShutdownLost", "Dev_RestartLost",
               "Dev_RequestRaises_AttributeError", "Dev_RequestRaises_RuntimeError", "Dev_Revived", "Dev_ResponderLeak",
-              "Dev_NoHook", "Dev_InterruptedStartup", "Dev_RequestRaises_other">>
+              "Dev_NoHook", "Dev_InterruptedStartup", "Dev_SignalHandlerBlocks", "Dev_RequestRaises_other">>
 RECURSIVE Pow2(_)
 Pow2(n) == IF n = 0 THEN 1 ELSE 2 * Pow2(n - 1)
 Known(d) == \E k \in 1 .. Len(DevNames) - 1 : DevNames[k] = d
